@@ -299,7 +299,7 @@ func mixedNode(b *treeBuilder, rng *rand.Rand, maxDepth int) {
 	case r < 10:
 		b.add(p, "cloneff", TAct{})
 	default:
-		b.add(p, "monitor", TAct{HandlerMs: pickInt(rng, 0, 0, 10)})
+		b.add(p, "monitor", TAct{HandlerMs: pickInt(rng, 0, 0, 10), SelfClose: pickInt(rng, 0, 0, 0, 1, 2, 5)})
 	}
 }
 
@@ -490,7 +490,7 @@ func genC16(g GenCtx) interface{} {
 	var mons []int
 	for i := 0; i < nMon; i++ {
 		p := b.randParent(rng, 3)
-		mons = append(mons, b.add(p, "monitor", TAct{HandlerMs: pickInt(rng, 0, 0, 1, 30)}))
+		mons = append(mons, b.add(p, "monitor", TAct{HandlerMs: pickInt(rng, 0, 0, 1, 30), SelfClose: pickInt(rng, 0, 0, 0, 0, 1, 3, 8)}))
 	}
 	released := !sc.HoldFirstList
 	n := rng.Intn(40)
